@@ -176,6 +176,42 @@ def c_place_dl(mod):
     return f
 
 
+class _V(object):
+    """A vertex object with identity-based hash (the default for objects):
+    where it lands in a set depends on its address, i.e. on what the process
+    allocated before."""
+
+    def __init__(self, name):
+        self.name = name
+
+    def __repr__(self):
+        return "V(%s)" % self.name
+
+
+def c_place_objects(mod):
+    """Sequential-type placer with object vertices, an explicit vertex order
+    and a same-chip group: the result, read by vertex name, is a function of
+    the arguments only."""
+    def f():
+        import importlib
+        from rig.place_and_route import Machine, Cores
+        from rig.netlist import Net
+        from rig.place_and_route.constraints import SameChipConstraint
+        m = importlib.import_module("rig.place_and_route.place." + mod)
+        vs = [_V("v%d" % i) for i in range(8)]
+        vr = {v: {Cores: 1} for v in vs}
+        nets = [Net(vs[i], [vs[(i + 3) % 8]]) for i in range(8)]
+        machine = Machine(3, 2, chip_resources={Cores: 2})
+        cons = [SameChipConstraint([vs[5], vs[1]]),
+                SameChipConstraint([vs[6], vs[2]])]
+        kw = {}
+        if mod == "sequential":
+            kw["vertex_order"] = list(vs)
+        pl = m.place(vr, nets, machine, cons, **kw)
+        return canon(sorted((v.name, tuple(c)) for v, c in pl.items())), []
+    return f
+
+
 def c_rand(variant=0):
     def f():
         import random
@@ -473,6 +509,10 @@ def call_table():
                               chip_order=[(2, 1), (1, 1), (0, 1), (0, 0),
                                           (1, 0), (2, 0)])),
         ("bfs", c_place("breadth_first")),
+        # (only the placer that is given an explicit vertex order: the
+        # orders that breadth-first search, Hilbert and RCM derive from sets
+        # of vertices follow the vertices' hash order by construction)
+        ("seq_objects", c_place_objects("sequential")),
         ("hilbert", c_place("hilbert", 1)),
         ("hilbert_dev", c_place("hilbert", 2)),
         ("route_dev", c_route(20, 2)),
